@@ -30,7 +30,7 @@ CHILD = os.path.join(os.path.dirname(os.path.dirname(os.path.abspath(__file__)))
 TIERS = {
     # sim_n histories are enough; sim_s only bounds the wait on a busy machine
     "quick": dict(groups=2, slots=22, sim_s=400, sim_n=160, pairs=["Pickle_pairs", "Pickle_pairs_opts"], workers=4, jobs=6),
-    "thorough": dict(groups=6, slots=30, sim_s=1500, sim_n=1500,
+    "thorough": dict(groups=6, slots=30, sim_s=1500, sim_n=800,
                      pairs=["Pickle_pairs", "Pickle_pairs_opts", "Pickle_hazard_nm", "Pickle_pairs_t1", "Pickle_pairs_t2", "Pickle_pairs_t3"],
                      workers=4, jobs=6),
 }
@@ -106,6 +106,15 @@ def features(rec):
             why = "ptr" if "ptr" in view_kinds(L1, l) else "cinit" if (L1["cinit"] != -1 and L1["cinit"] <= l) else \
                 "off" if l < L1["off"] else "struct"
             fs.add(("TypeError", why))
+            # the cause sits in a base class only (the generated code has to walk the chain)
+            if why == "cinit":
+                inh = L1["cinit"] < l
+            elif why in ("ptr", "struct"):
+                inh = all(L1["mem"][x]["lvl"] < l for x in lp.members(L1, l) if L1["mem"][x]["kind"] == why)
+            else:
+                inh = False
+            if inh:
+                fs.add(("TypeError", why, "inherited"))
     for a, b in zip(Ls, Ls[1:]):
         for e in edits(a, b):
             fs.add(("edit", e))
@@ -256,12 +265,20 @@ def run(tier, seed):
     for r in chosen:
         for f in features(r):
             covered[f] += 1
-    for need in (("renamed-same-kinds",), ("case", True, "same", "ok"), ("case", True, "sameorraise", "ok"), ("case", True, "byname", "ok"), ("case", False, "same", "ok"),
+    NEED = (("renamed-same-kinds",), ("case", True, "same", "ok"), ("case", True, "sameorraise", "ok"), ("case", True, "byname", "ok"), ("case", False, "same", "ok"),
                  ("case", False, "TypeError", "TypeError"), ("case", True, "raise", "raise"), ("TypeError", "ptr"), ("TypeError", "struct"),
                  ("TypeError", "cinit"), ("TypeError", "off"), ("forced-struct",), ("same", "py", True), ("same", "d", 2),
-                 ("same", "tag", "self"), ("same", "tag", "shl"), ("dict-nowhere",)):
+            ("same", "tag", "self"), ("same", "tag", "shl"), ("dict-nowhere",), ("same", "lvl", 1),
+            ("TypeError", "cinit", "inherited"), ("TypeError", "ptr", "inherited"), ("TypeError", "struct", "inherited"))
+    # every class of case the check relies on occurs in the exhaustive single-edit histories: top up if the greedy cover missed one
+    for need in NEED:
         if not covered[need]:
-            core.die("vacuous selection: no history with %s among %d selected (pool %d)" % (need, len(chosen), len(pool)))
+            extra = [r for r in core_pool if need in features(r) and r not in chosen]
+            if not extra:
+                core.die("vacuous model: no published history with %s (pool %d)" % (need, len(pool)))
+            chosen.append(extra[0])
+            for f in features(extra[0]):
+                covered[f] += 1
     cov["selected_features"] = {json.dumps(k): v for k, v in sorted(covered.items(), key=repr)}
 
     # ---- S vs P on the published cases: demand, identity transformation, Meets on everything the model calls hazard-free
@@ -284,7 +301,8 @@ def run(tier, seed):
 
     # ---- modules: group g, version v -> directory g<g>/v<v>/c29m
     wd = core.subdir("c29")
-    groups = [chosen[g * T["slots"]:(g + 1) * T["slots"]] for g in range(T["groups"])]
+    per = -(-len(chosen) // T["groups"])
+    groups = [chosen[g * per:(g + 1) * per] for g in range(T["groups"])]
     groups = [g for g in groups if g]
     plans, specs = [], []
     for g, fams in enumerate(groups):
@@ -419,7 +437,7 @@ def run(tier, seed):
                     if bad is None:
                         if c["impl"] in ("carr", "dangling"):
                             stats["hazard-predicted-not-observed"] += 1
-                        if c["impl"] == "ok" and "load_exc" in obs:
+                        if c["impl"] == "ok" and "load_exc" in obs and "exc" not in (obs.get("byname") or {}):
                             stats["refused-where-the-model-loads"] += 1      # allowed by the property (changed layout)
                         if len(judged_ok) < 4000:
                             judged_ok.append((c["demand"], exp_fields, exp_dict, obs))
